@@ -37,7 +37,8 @@ REACH_PROBES = ["recycled_power_flow_executed", "batch_read_path_taken", "only_v
                 "step_failed_then_next_step_checked", "second_run_on_same_net", "line_parameter_controlled",
                 "multi_index_controller", "tap_controller_in_loop", "subset_logged_in_non_table_order",
                 "dc_recycled_power_flow_executed", "variable_removed_and_requested_again",
-                "non_contiguous_or_unsorted_element_index", "variable_of_empty_element_table_requested"]
+                "non_contiguous_or_unsorted_element_index", "variable_of_empty_element_table_requested",
+                "second_run_with_the_same_output_writer"]
 
 CTRL_TARGETS = [("load", "p_mw"), ("load", "q_mvar"), ("load", "scaling"), ("sgen", "p_mw"), ("sgen", "q_mvar"),
                 ("sgen", "scaling"), ("storage", "p_mw"), ("gen", "p_mw"), ("gen", "vm_pu"), ("ext_grid", "vm_pu"),
@@ -145,6 +146,7 @@ def generate(rng, idx, tier):
         run2 = copy.deepcopy(run)
         run2["perm_seed"] = rng.randrange(1 << 30)
         run2["fail_at"] = []
+        run2["reuse_ow"] = rng.random() < 0.5       # the user calls run_timeseries again with the same OutputWriter
         ol.append(run2)
     return {"cfg": cfg, "ops": ol}
 
@@ -311,6 +313,7 @@ def execute(ep, ctx):
     from pandapower.timeseries import OutputWriter, DFData
     import pandapower.timeseries.output_writer as owm
     SimData = make_simdata_class()
+    _LAST_OW.clear()
     net = None
     ow_op = None
     ctrl_desc = []
@@ -497,6 +500,9 @@ def _make_ow(net, ow_op, time_steps, tmpdir, ctx=None):
     return ow, wanted
 
 
+_LAST_OW = {}
+
+
 def _exec_run(net, op, ow_op, i, ctx, ctrl_desc, tmpdir, owm):
     import pandapower as pp
     from pandapower.timeseries import run_timeseries
@@ -509,7 +515,17 @@ def _exec_run(net, op, ow_op, i, ctx, ctrl_desc, tmpdir, owm):
     clock = SimClock()
     old_pc = owm.perf_counter
     owm.perf_counter = clock.now
-    ow, wanted = _make_ow(net, ow_op, ts_arg, tmpdir, ctx)
+    prev = _LAST_OW.get(id(net))
+    if op.get("reuse_ow") and prev is not None and "output_writer" in net and len(net.output_writer) \
+            and net.output_writer.iat[0, 0] is prev[0]:
+        ow, wanted = prev
+        if "dump_to_file" in ow.__dict__:
+            del ow.__dict__["dump_to_file"]          # (the counting wrapper of the previous run)
+        ctx.probe("second_run_with_the_same_output_writer")
+    else:
+        ow, wanted = _make_ow(net, ow_op, ts_arg, tmpdir, ctx)
+    _LAST_OW.clear()
+    _LAST_OW[id(net)] = (ow, wanted)
     if not wanted:
         owm.perf_counter = old_pc
         ctx.event("run_timeseries", "nothing-to-log")
